@@ -1,7 +1,7 @@
 (** * C01: Optic.set_thickness (regenerated kernel) refines "replace one thickness":
     over the reals, for every vertex list and every valid surface number. *)
 From Coq Require Import Reals ZArith List Bool Lia Lra.
-From OV Require Import Ops RInst Gen.LensEdit Spec.S_C01 Lemmas.L_C01_lists.
+From OV Require Import Ops RInst XR Gen.LensEdit Spec.S_C01 Lemmas.L_C01_lists.
 Import ListNotations.
 Local Open Scope R_scope.
 
@@ -22,14 +22,31 @@ Qed.
 Lemma length_mapfrom (f : R -> R) (l : list R) m : length (firstn m l ++ map f (skipn m l)) = length l.
 Proof. rewrite app_length, map_length, <- app_length, firstn_skipn. reflexivity. Qed.
 
+Ltac rlia := change (T ROps) with R; lia.
+Ltac rring := change (T ROps) with R; ring.
+
 Lemma sliceZ_to_end (l : list R) lo : (0 <= lo)%Z -> sliceZ l lo None = skipn (Z.to_nat lo) l.
 Proof.
   intros H. unfold sliceZ. destruct (Z.ltb_spec lo 0); [lia|].
   apply firstn_all2. rewrite skipn_length. lia.
 Qed.
 
-Ltac rlia := change (T ROps) with R; lia.
-Ltac rring := change (T ROps) with R; ring.
+Lemma setZ_zero (a x : R) (r : list R) : setZ (O:=ROps) (a :: r) 0 x = x :: r.
+Proof.
+  unfold setZ. destruct (Z.ltb_spec 0 0); [lia|].
+  destruct (Z.leb_spec (Z.of_nat (length (a :: r))) 0) as [H0|H0]; [cbn [length] in H0; lia|]. reflexivity.
+Qed.
+
+Lemma st_shape (p : list R) (m : Z) :
+  m = Z.of_nat (length p) -> (1 < length p)%nat ->
+  map (fun j => getZ (O:=ROps) (map (fun x => x - getZ (O:=ROps) p 1) p) j) (rangeZ 0 m) =
+  map (fun x => x - nth 1 p 0) p.
+Proof.
+  intros -> H1. rewrite (getZ_nth (O:=ROps) p 1 0) by rlia. change (Z.to_nat 1) with 1%nat.
+  set (p4 := map (fun x : R => x - nth 1 p 0) p).
+  assert (L4 : length p4 = length p) by (unfold p4; apply map_length).
+  rewrite <- L4. apply (map_getZ_range (O:=ROps)).
+Qed.
 
 Section SetThickness.
   Variables (v : R) (k : Z) (zs : list R).
@@ -39,32 +56,49 @@ Section SetThickness.
   Local Notation n := (Z.of_nat (length zs)).
   Local Notation zs' := (k_c01_set_thickness ROps v k zs n).
   Local Notation d := (v - getZ (O:=ROps) zs (k + 1) + getZ (O:=ROps) zs k).
-  Local Notation p2 := (firstn (Z.to_nat (k + 1)) zs ++ map (fun x => x + d) (skipn (Z.to_nat (k + 1)) zs)).
+  (** the vertex list before re-anchoring: the object gap moves only the object (so that an object at
+      infinity stays harmless), any other gap moves everything behind it *)
+  Local Notation p2 := (if (k =? 0)%Z then setZ (O:=ROps) zs 0 (getZ (O:=ROps) zs 1 - v)
+                        else firstn (Z.to_nat (k + 1)) zs ++ map (fun x => x + d) (skipn (Z.to_nat (k + 1)) zs)).
+
+  Lemma p2_length : length p2 = length zs.
+  Proof.
+    destruct (k =? 0)%Z; [|apply length_mapfrom].
+    unfold setZ. destruct (_ || _); [reflexivity|]. apply set_nth_length.
+  Qed.
+
+  Lemma p2_nth i : (i < length zs)%nat ->
+    nth i p2 0 = if (k =? 0)%Z then (if Nat.eqb i 0 then nth 1 zs 0 - v else nth i zs 0)
+                 else (if (i <=? Z.to_nat k)%nat then nth i zs 0 else nth i zs 0 + d).
+  Proof.
+    intros H. destruct (Z.eqb_spec k 0) as [E|E].
+    - destruct zs as [|a r]; [simpl in H; lia|]. rewrite setZ_zero.
+      rewrite (getZ_nth (O:=ROps) (a :: r) 1 0) by (subst k; rlia). change (Z.to_nat 1) with 1%nat.
+      destruct i; reflexivity.
+    - rewrite nth_mapfrom by exact H.
+      replace (Z.to_nat (k + 1)) with (S (Z.to_nat k)) by lia.
+      change (i <? S (Z.to_nat k))%nat with (i <=? Z.to_nat k)%nat. reflexivity.
+  Qed.
 
   Lemma set_thickness_unfold : zs' = map (fun x => x - nth 1 p2 0) p2.
   Proof.
     unfold k_c01_set_thickness. rops.
     rewrite sliceZ_to_end by lia.
-    assert (L2 : length p2 = length zs) by apply length_mapfrom.
-    rewrite (getZ_nth (O:=ROps) p2 1 0) by (change (T ROps) with R; rewrite L2; lia).
-    change (Z.to_nat 1) with 1%nat.
-    set (p4 := map (fun x_ : R => x_ - nth 1 p2 0) p2).
-    assert (L4 : length p4 = length zs) by (unfold p4; rewrite map_length; exact L2).
-    rewrite <- L4. apply (map_getZ_range (O:=ROps)).
+    apply st_shape.
+    - f_equal. symmetry. apply p2_length.
+    - eapply Nat.lt_le_trans; [|apply Nat.eq_le_incl; symmetry; apply p2_length]. lia.
   Qed.
 
   Lemma set_thickness_length : length zs' = length zs.
-  Proof. rewrite set_thickness_unfold, map_length. apply length_mapfrom. Qed.
+  Proof. rewrite set_thickness_unfold, map_length. apply p2_length. Qed.
 
-  Lemma set_thickness_nth i : (i < length zs)%nat ->
-    nth i zs' 0 = (if (i <=? Z.to_nat k)%nat then nth i zs 0 else nth i zs 0 + d) - nth 1 p2 0.
+  Lemma set_thickness_nth i : (i < length zs)%nat -> nth i zs' 0 = nth i p2 0 - nth 1 p2 0.
   Proof.
     intros H. rewrite set_thickness_unfold.
-    assert (L2 : length p2 = length zs) by apply length_mapfrom.
-    rewrite (nth_indep _ 0 (0 - nth 1 p2 0)) by (rewrite map_length, L2; exact H).
-    rewrite (map_nth (fun x => x - nth 1 p2 0)). rewrite nth_mapfrom by exact H.
-    replace (Z.to_nat (k + 1)) with (S (Z.to_nat k)) by lia.
-    change (i <? S (Z.to_nat k))%nat with (i <=? Z.to_nat k)%nat. reflexivity.
+    assert (L2 : length p2 = length zs) by apply p2_length.
+    rewrite (nth_indep _ 0 (0 - nth 1 p2 0))
+      by (rewrite map_length; eapply Nat.lt_le_trans; [exact H|apply Nat.eq_le_incl; symmetry; apply p2_length]).
+    rewrite (map_nth (fun x => x - nth 1 p2 0)). reflexivity.
   Qed.
 
   (** the first surface stays at (is brought back to) z = 0 *)
@@ -72,9 +106,6 @@ Section SetThickness.
   Proof.
     rewrite (getZ_nth (O:=ROps) zs' 1 0) by (rewrite set_thickness_length; lia).
     change (Z.to_nat 1) with 1%nat. rewrite set_thickness_nth by lia.
-    rewrite nth_mapfrom by lia.
-    replace (Z.to_nat (k + 1)) with (S (Z.to_nat k)) by lia.
-    change (1 <? S (Z.to_nat k))%nat with (1 <=? Z.to_nat k)%nat.
     apply Rminus_diag_eq. reflexivity.
   Qed.
 
@@ -87,15 +118,21 @@ Section SetThickness.
     intros Hj0 Hj1. unfold k_c01_get_thickness. rops.
     rewrite (getZ_nth (O:=ROps) zs' (j + 1) 0), (getZ_nth (O:=ROps) zs' j 0) by (rewrite set_thickness_length; rlia).
     rewrite (getZ_nth (O:=ROps) zs (j + 1) 0), (getZ_nth (O:=ROps) zs j 0) by rlia.
-    rewrite !set_thickness_nth by rlia.
-    replace (Z.to_nat (j + 1)) with (S (Z.to_nat j)) by rlia.
-    destruct (Z.eqb_spec j k) as [->|Hne].
-    - destruct (Nat.leb_spec (S (Z.to_nat k)) (Z.to_nat k)); [lia|].
-      destruct (Nat.leb_spec (Z.to_nat k) (Z.to_nat k)); [|lia].
-      rewrite (getZ_nth (O:=ROps) zs (k + 1) 0), (getZ_nth (O:=ROps) zs k 0) by rlia.
-      replace (Z.to_nat (k + 1)) with (S (Z.to_nat k)) by rlia. rring.
-    - destruct (Nat.leb_spec (S (Z.to_nat j)) (Z.to_nat k)); destruct (Nat.leb_spec (Z.to_nat j) (Z.to_nat k));
-        try rring; lia.
+    rewrite !set_thickness_nth by lia. rewrite !p2_nth by lia.
+    rewrite (getZ_nth (O:=ROps) zs (k + 1) 0), (getZ_nth (O:=ROps) zs k 0) by rlia.
+    replace (Z.to_nat (j + 1)) with (S (Z.to_nat j)) by lia.
+    replace (Z.to_nat (k + 1)) with (S (Z.to_nat k)) by lia.
+    change (Nat.eqb (S (Z.to_nat j)) 0) with false.
+    destruct (Z.eqb_spec k 0) as [E0|E0].
+    - subst k. change (Z.to_nat 0) with 0%nat.
+      destruct (Z.eqb_spec j 0) as [->|Hne].
+      + change (Z.to_nat 0) with 0%nat. cbn [Nat.eqb]. rring.
+      + destruct (Nat.eqb_spec (Z.to_nat j) 0); [lia|]. rring.
+    - destruct (Z.eqb_spec j k) as [->|Hne].
+      + destruct (Nat.leb_spec (S (Z.to_nat k)) (Z.to_nat k)); [lia|].
+        destruct (Nat.leb_spec (Z.to_nat k) (Z.to_nat k)); [|lia]. rring.
+      + destruct (Nat.leb_spec (S (Z.to_nat j)) (Z.to_nat k)); destruct (Nat.leb_spec (Z.to_nat j) (Z.to_nat k));
+          try rring; lia.
   Qed.
 End SetThickness.
 
@@ -143,3 +180,25 @@ Qed.
 Example set_thickness_ex :
   k_c01_set_thickness ROps 7 1 [-100; 0; 5; 45] 4 = [-100 - 0; 0 - 0; 5 + (7 - 5 + 0) - 0; 45 + (7 - 5 + 0) - 0].
 Proof. reflexivity. Qed.
+
+(** ** the object gap with the object at infinity (extended reals): set_thickness(v, 0) brings the object
+    to -v, leaves every other vertex where it was (surface 1 at 0) and produces no NaN *)
+Theorem set_thickness_infinite_object (v z1 : R) (rest : list R) :
+  k_c01_set_thickness XOps (Fin v) 0 (NInf :: Fin z1 :: map Fin rest) (Z.of_nat (length (NInf :: Fin z1 :: map Fin rest))) =
+  Fin (z1 + - v + - z1) :: Fin (z1 + - z1) :: map (fun z => Fin (z + - z1)) rest.
+Proof.
+  unfold k_c01_set_thickness. cbn [Z.eqb].
+  assert (S0 : setZ (O:=XOps) (NInf :: Fin z1 :: map Fin rest) 0 (sub (o:=XOps) (getZ (O:=XOps) (NInf :: Fin z1 :: map Fin rest) 1) (Fin v))
+               = Fin (z1 + - v) :: Fin z1 :: map Fin rest).
+  { unfold setZ. cbv zeta. change (0 <? 0)%Z with false. cbn [orb].
+    destruct (Z.leb_spec (Z.of_nat (length (NInf :: Fin z1 :: map Fin rest))) 0) as [H0|H0]; [cbn [length] in H0; lia|].
+    change (Z.to_nat 0) with 0%nat. cbn [set_nth]. f_equal.
+    rewrite (getZ_nth (O:=XOps) _ 1 NaN) by (cbn [length]; lia). reflexivity. }
+  rewrite S0.
+  assert (G1 : getZ (O:=XOps) (Fin (z1 + - v) :: Fin z1 :: map Fin rest) 1 = Fin z1).
+  { rewrite (getZ_nth (O:=XOps) _ 1 NaN) by (cbn [length]; lia). reflexivity. }
+  rewrite G1.
+  set (p6 := map (fun x_ => sub (o:=XOps) x_ (Fin z1)) (Fin (z1 + - v) :: Fin z1 :: map Fin rest)).
+  assert (L6 : length p6 = length (NInf :: Fin z1 :: map Fin rest)) by (unfold p6; rewrite map_length; reflexivity).
+  rewrite <- L6. rewrite (map_getZ_range (O:=XOps)). unfold p6. cbn [map]. rewrite map_map. reflexivity.
+Qed.
